@@ -900,7 +900,13 @@ class CIMInt(CIMType, int):
             args = list(*args)  # args is passed as a tuple
             args.append(kwargs.pop('x'))
 
-        value = int(*args, **kwargs)
+        try:
+            value = int(*args, **kwargs)
+        except OverflowError as exc:
+            # e.g. float('inf'): not representable in any CIM integer type
+            raise ValueError(
+                _format("Value {0!A} cannot be converted to CIM datatype "
+                        "{1}: {2}", args, cls.cimtype, exc))
         if ENFORCE_INTEGER_RANGE:
             if value > cls.maxvalue or value < cls.minvalue:
                 raise ValueError(
